@@ -38,7 +38,14 @@ type kind struct {
 func kindsFor(n int, thorough bool) []kind {
 	// outside(root): like outside(rel), but the path it would reach is named "root/x" (a directory
 	// that exists in the image) instead of "x"
-	ks := []kind{{K: "file"}, {K: "dir"}, {K: "missing"}, {K: "deleted"}, {K: "outside"}, {K: "outside", Spell: "abs"}, {K: "outside", Spell: "root"}, {K: "root", Spell: "abs"}, {K: "root", Spell: "rel"}}
+	ks := []kind{{K: "file"}, {K: "dir"}, {K: "missing"}, {K: "deleted"}, {K: "outside"}, {K: "root", Spell: "abs"}, {K: "root", Spell: "rel"}}
+	if n <= 3 || thorough {
+		// every spelling of a target that leaves the root: plain, absolute, towards a directory named root,
+		// climbing only after a first harmless component, behind a leading "./"
+		ks = append(ks, kind{K: "outside", Spell: "abs"}, kind{K: "outside", Spell: "root"}, kind{K: "outside", Spell: "mid"}, kind{K: "outside", Spell: "dot"})
+	} else {
+		ks = append(ks, kind{K: "outside", Spell: "mid"})
+	}
 	for j := 0; j < n; j++ {
 		if n > 1 && (n <= 3 || thorough) {
 			// a link whose target goes THROUGH entry j ("e<j>/child"): entry j may itself be a link
@@ -100,6 +107,12 @@ func build(g []kind) [][]byte {
 			}
 			if k.Spell == "root" {
 				t = "../../root/x"
+			}
+			if k.Spell == "mid" {
+				t = "y/../../../x"
+			}
+			if k.Spell == "dot" {
+				t = "./../../x"
 			}
 			l0 = append(l0, imgkit.Sym(name(i), t))
 		case "link":
@@ -214,6 +227,12 @@ func graphStr(g []kind) string {
 		}
 		if k.K == "outside" && k.Spell == "root" {
 			s = "outside(../../root/x)"
+		}
+		if k.K == "outside" && k.Spell == "mid" {
+			s = "outside(y/../../../x)"
+		}
+		if k.K == "outside" && k.Spell == "dot" {
+			s = "outside(./../../x)"
 		}
 		if k.K == "via" {
 			s = fmt.Sprintf("->e%d/child", k.To)
@@ -450,5 +469,5 @@ func main() {
 	}
 	os.RemoveAll(base)
 	r.Set("bound", map[string]any{"entries_completed": completed, "depths": depths})
-	r.Finish(fmt.Sprintf("every kind assignment to n<=%d entries (named d/e0, d/e\\1 (a backslash in the name), d/e2...; file, dir, missing, deleted by layer 1, symlink to the image root itself (/ and ..), outside-root symlink spelled relative (../../x, ../../root/x) and absolute (/d/../../x), symlink whose target runs through another entry (e<j>/child; n<=3, thorough all n), symlink to each entry spelled relative/absolute%s, symlink re-pointed by layer 1 from entry j to j+1 (n<=3; thorough all n)) x MaxSymlinkDepth 0..6 x every entry x {Stat, Open+Read, ReadDir} on all three views (layer-0 view where deleted entries still exist, intermediate view with whiteout nodes, final view) of the real image vs the per-view reference resolver, views queried 0,1,2 and, on a fresh load at depth 6, 2,1,0; each query under a 60 s watchdog; non-trivial = queries whose chain has >=1 hop", maxN, map[bool]string{true: "/with ..", false: ""}[r.Thorough()]), completed >= maxN)
+	r.Finish(fmt.Sprintf("every kind assignment to n<=%d entries (named d/e0, d/e\\1 (a backslash in the name), d/e2...; file, dir, missing, deleted by layer 1, symlink to the image root itself (/ and ..), outside-root symlink spelled relative (../../x, ../../root/x, y/../../../x, ./../../x) and absolute (/d/../../x) (n<=3 all five, n=4 two of them), symlink whose target runs through another entry (e<j>/child; n<=3, thorough all n), symlink to each entry spelled relative/absolute%s, symlink re-pointed by layer 1 from entry j to j+1 (n<=3; thorough all n)) x MaxSymlinkDepth 0..6 x every entry x {Stat, Open+Read, ReadDir} on all three views (layer-0 view where deleted entries still exist, intermediate view with whiteout nodes, final view) of the real image vs the per-view reference resolver, views queried 0,1,2 and, on a fresh load at depth 6, 2,1,0; each query under a 60 s watchdog; non-trivial = queries whose chain has >=1 hop", maxN, map[bool]string{true: "/with ..", false: ""}[r.Thorough()]), completed >= maxN)
 }
